@@ -395,7 +395,8 @@ func cmdCheck(args []string) {
 	loadS := time.Since(t0).Seconds()
 
 	nr := &nativeRunner{verif: *verif, repo: *repo, work: work, bins: map[string]string{}, tier: tier}
-	replayDir := filepath.Join(*verif, "evidence", "replays", prop)
+	evDir := envOr("VERIF_EVIDENCE_DIR", filepath.Join(*verif, "evidence"))
+	replayDir := filepath.Join(evDir, "replays", prop)
 	os.RemoveAll(replayDir)
 
 	exit := 0
@@ -652,9 +653,9 @@ func cmdCheck(args []string) {
 		"wall_s":      round3(time.Since(t0).Seconds()),
 		"violations":  violations,
 	}
-	os.MkdirAll(filepath.Join(*verif, "evidence"), 0o755)
+	os.MkdirAll(evDir, 0o755)
 	b, _ := json.MarshalIndent(ev, "", " ")
-	os.WriteFile(filepath.Join(*verif, "evidence", prop+".json"), b, 0o644)
+	os.WriteFile(filepath.Join(evDir, prop+".json"), b, 0o644)
 	fmt.Printf("check %s %s: exit %d, %d paths, %d queries, %d violations, %d known, wall %.1fs\n", prop, tier, exit, totalPaths, totalQueries, violations, knownHit, time.Since(t0).Seconds())
 	if !*keep {
 		os.RemoveAll(work)
